@@ -118,6 +118,10 @@ def run(R):
         one = _ConstCmp(F, lambda b: Taint(b).closure({blk["term"]["d"][0] for blk in b.blocks if blk["term"]["k"] == "call" and (blk["term"]["ncallee"] or "").endswith("HashMap::len")}),
                         lambda v: v == 1, ("Le",), "result_map.len() <= 1 (no split)")
         R.gate("C05.err.single", err, CallSink(SRACT), [[one]], descr="timeout: no record is returned on a split result map")
+    lens = lambda b: Taint(b).closure({blk["term"]["d"][0] for blk in b.blocks if blk["term"]["k"] == "call" and (blk["term"]["ncallee"] or "").endswith("HashMap::len")})
+    if fin is not None:
+        many = _ConstCmp(F, lens, lambda v: v == 1, ("Gt",), "result_map.len() > 1")
+        R.gate("C05.fin.split", fin, AggSink("ant_networking::error::GetRecordError", "SplitRecord"), [[many]], descr="finished: SplitRecord is reported only for more than one version")
     qv = R.body("C05.quorum-table", QV)
     if qv is not None:
         prep(qv)
